@@ -38,6 +38,12 @@ class SigmaVal:
         self.p = p
 
 
+class DiagVal:
+    """np.diag(<singular values>)"""
+    def __init__(self, sigma):
+        self.sigma = sigma
+
+
 class Scalar:
     def __init__(self, text='scalar'):
         self.text = text
@@ -259,6 +265,9 @@ class LegInterp:
                 a, b = self.ev(e.left), self.ev(e.right)
                 if isinstance(a, TVal) and isinstance(b, TVal):
                     return lg.tensordot(a, b, [a.rank - 1], [0], 'matmul')
+                r = self.diag_product(a, b, e)
+                if r is not None:
+                    return r
             return Scalar(norm(e))
         if isinstance(e, ast.Call):
             return self.call(e)
@@ -316,6 +325,14 @@ class LegInterp:
         self.shared['events'].append(('reshape', node, self.fi, base, out))
         return out
 
+    def diag_product(self, a, b, node):
+        """np.diag(sigma) @ T scales the first axis of T, T @ np.diag(sigma) its last axis"""
+        if isinstance(a, DiagVal) and isinstance(b, TVal):
+            return self.mult(b, SigmaVal(a.sigma.sid, a.sigma.dim, a.sigma.exponent, b.rank, 0), node)
+        if isinstance(a, TVal) and isinstance(b, DiagVal):
+            return self.mult(a, SigmaVal(b.sigma.sid, b.sigma.dim, b.sigma.exponent, 1, 0), node)
+        return None
+
     def mult(self, a, b, node):
         if isinstance(a, SigmaVal) and isinstance(b, TVal):
             a, b = b, a
@@ -343,6 +360,19 @@ class LegInterp:
     def call(self, e):
         f = norm(e.func)
         kw = {k.arg: k.value for k in e.keywords if k.arg}
+        if f == 'np.diag' and len(e.args) == 1:
+            v = self.ev(e.args[0])
+            if isinstance(v, SigmaVal):
+                return DiagVal(v)
+            raise LegError(f'{self.fi.qual}: `{norm(e)[:50]}`: np.diag of something that is not a vector of singular values')
+        if f in ('np.dot', 'np.matmul') and len(e.args) == 2:
+            a, b = self.ev(e.args[0]), self.ev(e.args[1])
+            if isinstance(a, TVal) and isinstance(b, TVal):
+                return lg.tensordot(a, b, [a.rank - 1], [0 if b.rank == 1 else b.rank - 2], f'{f} at line {e.lineno}')
+            r = self.diag_product(a, b, e)
+            if r is not None:
+                return r
+            raise LegError(f'{self.fi.qual}: `{norm(e)[:50]}` with operands outside the leg domain')
         if f in ('np.tensordot',):
             a, b = self.ev(e.args[0]), self.ev(e.args[1])
             axn = e.args[2] if len(e.args) > 2 else kw.get('axes')
